@@ -225,10 +225,11 @@ def Constraint.residualV (c : Constraint α) (v : Nat → α) : Res α :=
     let lqx := v l.p1.x; let lqy := v l.p1.y
     let a := lpy - lqy
     let b := lqx - lpx
-    let c := (lpx * lqy) - (lqx * lpy)
     let denom := hypot a b
     if denom < EPS then Res.degen
-    else Res.mk1 ((a * px + b * py + c) / denom - d)
+    -- numerator written relative to the line's first point (the code after fix 7c5f1bc; the
+    -- earlier `a*px + b*py + c` with `c = lpx*lqy - lqx*lpy` cancelled badly far from the origin)
+    else Res.mk1 ((a * (px - lpx) + b * (py - lpy)) / denom - d)
   | .verticalPointLineDistance p l d =>
     let ax := v p.x; let ay := v p.y
     let px := v l.p0.x; let py := v l.p0.y
